@@ -18,7 +18,7 @@
    below 2^53, where exact and float64 comparison coincide; see notes/C08.md. *)
 From Coq Require Import List ZArith Bool String Ascii.
 From GZ Require Import C08.Model C08.Spec C08.Proofs C08.ProofsB.
-From GZ Require Import C08.KModel C08.KSpec C08.KProofs C08.KProofsB C08.KProofsC C08.Rounding.
+From GZ Require Import C08.KModel C08.KSpec C08.KProofs C08.KProofsB C08.KProofsC C08.Rounding C08.Check C08.CheckProofs.
 Import ListNotations.
 Open Scope Z_scope.
 Open Scope string_scope.
@@ -372,6 +372,13 @@ Theorem calls_order_irrelevant : forall cs cs' i j c,
   nth_error (run_calls cs) i = nth_error (run_calls cs') j.
 Proof. exact calls_order_irrelevant_lemma. Qed.
 Print Assumptions calls_order_irrelevant.
+
+(* the judgement of Check.v ([prop_ok]: the property evaluated on what the implementation returned)
+   never reports an implementation that behaves like the model ([agrees]): the property oracle is
+   consistent with the model's calls, a VIOLATION always is a difference from the model *)
+Theorem check_never_reports_the_model : forall cs, agrees cs = true -> prop_ok cs = true.
+Proof. exact agrees_implies_prop_ok_case. Qed.
+Print Assumptions check_never_reports_the_model.
 
 (* ---------------------------------------------------------------- non-vacuity (keys) *)
 
